@@ -151,8 +151,7 @@ func init() {
 					ev.Inconsistent("case %s does not tokenize: %v", c.name, err)
 				}
 				if o.ReadErr != "" || o.Tok == nil {
-					r.Violate("c10", c.name+strings.Join(flags, " "), fmt.Sprintf("%s %v: token.go unreadable: %s", c.name, flags, o.ReadErr), map[string]any{"text": c.text, "flags": flags})
-					return
+					ev.Inconsistent("table reader cannot read token.go of %s %v: %s", c.name, flags, o.ReadErr)
 				}
 				for _, p := range tokenMapProblems(o.Tok, terms) {
 					r.Violate("c10", c.name+strings.Join(flags, " ")+p, fmt.Sprintf("%s %v: %s\n  text: %s", c.name, flags, p, oneLine(c.text)), map[string]any{"text": c.text, "flags": flags, "problem": p})
